@@ -44,11 +44,19 @@ def judge_dest_call(ctx, o, pre, post, kind):
                  lambda: {"sig": f"{kind} -> {name}"})
 
 
-def h_dest(ctx, N, mode, imm):
+def h_dest(ctx, N, mode, imm, prefix="none", limits=2):
     w = World(ctx)
     mode = ACK if mode == "ack" else UNACK
     sc = DstScenario(ctx, w, mode=mode, cktype=ChecksumType.CRC_32,
-                     closure=bool(ctx.choice("closure", 2)), rig_kwargs={"immediate_nak": imm})
+                     closure=bool(ctx.choice("closure", 2)),
+                     rig_kwargs={"immediate_nak": imm, "ack_limit": limits, "nak_limit": limits,
+                                 "check_limit": limits})
+    if prefix != "none":
+        # canonical prefix into the late steps; afterwards PDUs may arrive together with a timer expiry
+        for o in sc.run_prefix(prefix):
+            pre = post = None
+            judge_dest_call(ctx, o, snapshot(sc.rig), snapshot(sc.rig), "PREFIX")
+        sc.pdu_dt = True
     for i in range(N):
         alphabet = STATE_EVENTS[mode] + (LAST_ONLY if i == N - 1 else [])
         pre = snapshot(sc.rig)
@@ -128,6 +136,12 @@ def plan(tier):
         for imm in ((True, False) if mode == "ack" else (True,)):
             specs.append(Spec(f"dest/{mode}/imm={imm}/N={n}", "vf.harness.c10:h_dest",
                               {"N": n, "mode": mode, "imm": imm}, twin_share=0.05))
+    # late steps, PDU arrival racing with timer expiry, limits 1 and 2
+    for mode, pre in (("ack", "delivered"), ("ack", "eof_missing"), ("ack", "eof_first"), ("unack", "eof_missing")):
+        for lim in (1, 2):
+            specs.append(Spec(f"dest/{mode}/after-{pre}/limits={lim}/N={n - 2}", "vf.harness.c10:h_dest",
+                              {"N": n - 2, "mode": mode, "imm": True, "prefix": pre, "limits": lim},
+                              twin_share=0.05))
     t = 2 if tier == "quick" else 3
     for mode in ("ack", "unack"):
         for pre in SRC_PREFIXES:
@@ -139,7 +153,7 @@ def plan(tier):
 
 
 BOUNDS = {
-    "quick": "destination: every sequence of N=4 events over {Metadata, File Data (offset<=2^20, length<=4000 symbolic), EOF, EOF(cancel, symbolic size), ACK(Finished), tick (dt 0..3), cancel request} plus, in last position, Prompt / Finished / NAK / Keep-Alive / ACK(EOF) / wrong direction / wrong destination id / unknown source id / cancel of another id; acknowledged (immediate and deferred NAK) and unacknowledged, closure on/off. Source: 9 canonical prefixes (one per reachable step) followed by every sequence of T=2 events over {no packet, tick, NAK (1 symbolic request), ACK(EOF), Finished, Keep-Alive, cancel} plus in last position put request / wrong sequence number / wrong ids / wrong direction / Metadata / EOF / Prompt / File Data / ACK(Finished); file of at most 2 segments",
+    "quick": "destination: after the canonical prefixes delivered / EOF with missing data / EOF first (limits 1 and 2) every sequence of N=2 events in which each PDU may arrive together with a timer expiry (clock advance 0..2 before the delivery); and from idle every sequence of N=4 events over {Metadata, File Data (offset<=2^20, length<=4000 symbolic), EOF, EOF(cancel, symbolic size), ACK(Finished), tick (dt 0..3), cancel request} plus, in last position, Prompt / Finished / NAK / Keep-Alive / ACK(EOF) / wrong direction / wrong destination id / unknown source id / cancel of another id; acknowledged (immediate and deferred NAK) and unacknowledged, closure on/off. Source: 9 canonical prefixes (one per reachable step) followed by every sequence of T=2 events over {no packet, tick, NAK (1 symbolic request), ACK(EOF), Finished, Keep-Alive, cancel} plus in last position put request / wrong sequence number / wrong ids / wrong direction / Metadata / EOF / Prompt / File Data / ACK(Finished); file of at most 2 segments",
     "thorough": "destination N=5, source T=3",
 }
 OUTSIDE = "longer sequences; fault-handler codes other than the defaults (C14); TLV options; large-file PDUs; PDUs are always drained between calls, so the positive direction of the unretrieved-PDU guard is not exercised"
